@@ -6,9 +6,9 @@ backtrack table under a text that is in progress. At the end of a load nothing i
 import KinModel.Loader
 namespace KinModel.Loader
 
-/-- none of the three events that leave a walked reference without value happened: `unvisitRef` with a nil value
-    (a pure reference cycle), `errMUST…` of an empty target swallowed (`#`), `errMUST…` of a null member swallowed -/
-def Clean (s : St) : Prop := s.nnil = 0 ∧ s.nempty = 0 ∧ s.nswallow = 0
+/-- neither of the two events that leave a walked reference without value happened: `unvisitRef` with a nil value
+    (a pure reference cycle), `errMUST…` of an empty target swallowed (`#`) -/
+def Clean (s : St) : Prop := s.nnil = 0 ∧ s.nempty = 0
 
 def Has (s : St) (o : Obj) : Prop := ∃ v, (o, v) ∈ s.value
 
@@ -177,12 +177,11 @@ theorem loadDoc_dle (w : World) (rs : Loc → Nat → St → Res) (hrs : ∀ l k
       exact fun x hx => foldRes_dle (rs l) (hrs l) _ _ _ h hx
 
 /-- the ways through the optional recursive call -/
-theorem preResolve_inv (pre swallows : Bool) (k : Kind) (o : Obj) (r : Unit → Res) (s2 : St) (cont : St → Res) (x : Res)
-    (h : preResolve pre swallows k o r s2 cont = x) :
+theorem preResolve_inv (pre : Bool) (r : Unit → Res) (s2 : St) (cont : St → Res) (x : Res)
+    (h : preResolve pre r s2 cont = x) :
     (pre = false ∧ cont s2 = x) ∨
     (pre = true ∧ ∃ s3, r () = .ok s3 ∧ cont s3 = x) ∨
-    (pre = true ∧ ∃ e s3, r () = .err e s3 ∧
-      (x = .err e s3 ∨ x = .ok { s3 with nswallow := s3.nswallow + 1, done := s3.done ++ [o] })) ∨
+    (pre = true ∧ ∃ e s3, r () = .err e s3 ∧ x = .err e s3) ∨
     (pre = true ∧ r () = .outOfFuel ∧ x = .outOfFuel) := by
   unfold preResolve at h
   cases pre with
@@ -192,15 +191,7 @@ theorem preResolve_inv (pre swallows : Bool) (k : Kind) (o : Obj) (r : Unit → 
     cases hr : r () with
     | ok s3 => simp only [hr] at h; exact Or.inr (Or.inl ⟨rfl, s3, rfl, h⟩)
     | outOfFuel => simp only [hr] at h; exact Or.inr (Or.inr (Or.inr ⟨rfl, rfl, h.symm⟩))
-    | err e s3 =>
-      refine Or.inr (Or.inr (Or.inl ⟨rfl, e, s3, rfl, ?_⟩))
-      cases e with
-      | none => simp only [hr] at h; exact Or.inl h.symm
-      | some k' =>
-        simp only [hr] at h
-        split at h
-        · simp only [markDone] at h; exact Or.inr h.symm
-        · exact Or.inl h.symm
+    | err e s3 => simp only [hr] at h; exact Or.inr (Or.inr (Or.inl ⟨rfl, e, s3, rfl, h.symm⟩))
 
 theorem resolve_dle (w : World) : ∀ fuel cx o s s', (resolve w fuel cx o s).st? = some s' → DLe s s' := by
   intro fuel
@@ -273,15 +264,13 @@ theorem resolve_dle (w : World) : ∀ fuel cx o s s', (resolve w fuel cx o s).st
                       intro s3 h3 hfin
                       obtain ⟨s4, hfin4, hd⟩ := markDone_dle _ _ _ hfin
                       exact DLe.trans h3 (DLe.trans (finish_dle w _ (fun k => ih _ k) _ t _ o _ s3 s4 hfin4) hd)
-                    generalize hx : preResolve _ _ _ _ _ _ _ = x at h
-                    rcases preResolve_inv _ _ _ _ _ _ _ _ hx with ⟨_, hc⟩ | ⟨_, s3, hres, hc⟩ | ⟨_, e, s3, hres, hxe⟩ | ⟨_, _, hxo⟩
+                    generalize hx : preResolve _ _ _ _ = x at h
+                    rcases preResolve_inv _ _ _ _ _ hx with ⟨_, hc⟩ | ⟨_, s3, hres, hc⟩ | ⟨_, e, s3, hres, hxe⟩ | ⟨_, _, hxo⟩
                     · exact cont s2 hL (hc ▸ h)
                     · exact cont s3 (DLe.trans hL (ih cx' tgt s2 s3 (by rw [hres]; rfl))) (hc ▸ h)
                     · have h3 : DLe s s3 := DLe.trans hL (ih cx' tgt s2 s3 (by rw [hres]; rfl))
-                      rcases hxe with rfl | rfl
-                      · simp only [Res.st?, Option.some.injEq] at h; subst h; exact h3
-                      · simp only [Res.st?, Option.some.injEq] at h; subst h
-                        exact fun y hy => by simp [h3 hy]
+                      subst hxe
+                      simp only [Res.st?, Option.some.injEq] at h; subst h; exact h3
                     · subst hxo; simp [Res.st?] at h
                   · simp only [ne_eq, hk, not_false_eq_true, if_true, Res.st?, Option.some.injEq] at h
                     exact exit2 h.symm
@@ -343,12 +332,10 @@ theorem resolve_marks (w : World) (fuel : Nat) (cx : Loc) (o : Obj) (s s' : St)
                 by_cases hte' : tn.empty = true
                 · rw [if_pos hte'] at h; cases h
                 rw [if_neg hte'] at h
-                rcases preResolve_inv _ _ _ _ _ _ _ _ h with ⟨_, hc⟩ | ⟨_, s3, _, hc⟩ | ⟨_, e, s3, _, hxe⟩ | ⟨_, _, hxo⟩
+                rcases preResolve_inv _ _ _ _ _ h with ⟨_, hc⟩ | ⟨_, s3, _, hc⟩ | ⟨_, e, s3, _, hxe⟩ | ⟨_, _, hxo⟩
                 · obtain ⟨s4, _, rfl⟩ := markDone_ok'' _ _ _ hc; simp
                 · obtain ⟨s4, _, rfl⟩ := markDone_ok'' _ _ _ hc; simp
-                · rcases hxe with hxe | hxe
-                  · cases hxe
-                  · simp only [Res.ok.injEq] at hxe; subst hxe; simp
+                · cases hxe
                 · cases hxo
               · simp [hk] at h
 
@@ -581,7 +568,7 @@ theorem resolve_presC (w : World) : ∀ fuel cx o, PresC w (resolve w fuel cx o)
               · rw [if_pos hE] at h
                 simp only [markDone, Res.ok.injEq] at h; subst h
                 exfalso
-                have := hc.2.1; simp at this
+                have := hc.2; simp at this
               rw [if_neg hE] at h
               cases ht : w.target cx t n.kind with
               | none => simp only [ht] at h; cases h
@@ -624,14 +611,10 @@ theorem resolve_presC (w : World) : ∀ fuel cx o, PresC w (resolve w fuel cx o)
                         refine settled_mark w s4 o hs4 ?_ ?_
                         · intro n' hn' hr'; rw [hn] at hn'; cases hn'; rw [hr] at hr'; cases hr'
                         · intro n' t' _ _; exact Or.inl (Or.inl hhas)
-                    rcases preResolve_inv _ _ _ _ _ _ _ _ h with ⟨hpre, hcn⟩ | ⟨_, s3, hres, hcn⟩ | ⟨_, e, s3, hres, hxe⟩ | ⟨_, _, hxo⟩
+                    rcases preResolve_inv _ _ _ _ _ h with ⟨hpre, hcn⟩ | ⟨_, s3, hres, hcn⟩ | ⟨_, e, s3, hres, hxe⟩ | ⟨_, _, hxo⟩
                     · exact cont s2 (fun c => ⟨c, ⟨rfl, rfl⟩, Grow.refl _, id⟩) hcn
                     · exact cont s3 (fun c3 => ih cx' tgt s2 s3 hres c3) hcn
-                    · rcases hxe with hxe | hxe
-                      · cases hxe
-                      · simp only [Res.ok.injEq] at hxe; subst hxe
-                        exfalso
-                        have := hc.2.2; simp at this
+                    · cases hxe
                     · cases hxo
                   · simp [hk] at h
 
